@@ -219,6 +219,28 @@ func codecFacts() {
 		seen += fmt.Sprintf("%s: okShape=%v sum=%v; ", v.recv, okShape, badSum)
 	}
 	add("codecSizeCheckOverflowSafe", "Bool", boolLean(safe), "server/wal/codec/v1.go,v2.go: ReadHeaderWithValidation", seen)
+	// the index file of a read-only segment: ReadIndex (v2) looks at the length of what it has read before it
+	// takes the checksum out of the first four bytes, and what is too short is reported as corrupted (so that
+	// the index is rebuilt); newReadOnlySegment refuses an index without entries before it looks up the last one
+	ri2 := funcDecl(parse("server/wal/codec/v2.go"), "V2", "ReadIndex")
+	rib := ""
+	if ri2 != nil {
+		rib = squash(src(ri2.Body))
+	}
+	lg := strings.Index(rib, "if uint32(len(indexBuf)) < v.GetIndexHeaderSize() { return nil, errors.Wrapf(ErrDataCorrupted,")
+	rd := strings.Index(rib, "ReadInt(indexBuf, 0)")
+	add("readIndexChecksLength", "Bool", boolLean(lg >= 0 && rd > lg), "server/wal/codec/v2.go: (*V2).ReadIndex",
+		fmt.Sprintf("length check at %d, first ReadInt at %d", lg, rd))
+	nro := funcDecl(parse("server/wal/readonly_segment.go"), "", "newReadOnlySegment")
+	nrb := ""
+	if nro != nil {
+		nrb = squash(src(nro.Body))
+	}
+	eg := strings.Index(nrb, "if len(ms.idx) < 4 { return nil, errors.Wrapf(codec.ErrDataCorrupted,")
+	lo2 := strings.Index(nrb, "ms.lastOffset = ")
+	rb := strings.Index(nrb, "ms.c.codec.RecoverIndex(")
+	add("readOnlySegmentRefusesEmptyIndex", "Bool", boolLean(eg >= 0 && lo2 > eg && rb >= 0 && rb < eg), "server/wal/readonly_segment.go: newReadOnlySegment",
+		fmt.Sprintf("rebuild at %d, empty-index check at %d, last offset computed at %d", rb, eg, lo2))
 	add("codecReadIntGuarded", "Bool", boolLean(guarded), "server/wal/codec/v1.go,v2.go: ReadHeaderWithValidation", seen)
 	// v1 header size
 	f1 := parse("server/wal/codec/v1.go")
